@@ -41,6 +41,10 @@ class HarnessError(Exception):
     """Raised by harness-owned functions; carries the id of who raised it."""
 
 
+class HarnessSignal(BaseException):
+    """The same, for failures that are BaseException but not Exception (a control-flow signal of the application's own)."""
+
+
 def digest(obj) -> str:
     return hashlib.blake2b(json.dumps(obj, sort_keys=True, default=repr).encode(),
                            digest_size=6).hexdigest()
